@@ -416,9 +416,8 @@ def cast_samples():
     }
 
 
-def r07h(ctx, run):
-    """every cast the checker accepts (Ty::can_cast_to, evaluated from its source) is one cast_into_memory can build: its dispatch, evaluated from its
-    source for the same pair, must not end in a panic!/unreachable!/failed assert (accepted without a diagnostic, then no executable)"""
+def cast_evaluator(ctx):
+    """(accepts(A, B), build(A, B) -> list of helper calls; raises Panic / CannotEstablish): Ty::can_cast_to and cast_into_memory evaluated from source"""
     import c12
     from symint import SymInterp
     from absint import Obj, Term, Variant, Panic, CannotEstablish, _Return
@@ -488,6 +487,31 @@ def r07h(ctx, run):
         return f
     helpers = ("cast_struct_to_struct", "cast_array_to_array", "create_nil_value", "optional_map", "error_union_map", "cast_payload_into_tagged_union", "cast_num",
                "layout::padding_needed_for")
+
+    def accepts(A, B):
+        return W.call("can_cast_to", A, [B])
+
+    def build(A, B):
+        calls_log = []
+        funcs = {h: (lambda i, a, h=h: (calls_log.append((h, a)), Term(h))[1]) for h in helpers}
+        funcs["cast_into_memory"] = lambda i, a: (calls_log.append(("cast_into_memory", a)), Term("recursive cast"))[1]
+        funcs["Some"] = lambda i, a: a[0]
+        funcs["MemFlags::trusted"] = lambda i, a: Term("trusted")
+        funcs["MemFlags::new"] = lambda i, a: Term("memflags")
+        it = CI(funcs=funcs, macros={"assert": mk_assert("assert"), "assert_eq": mk_assert("assert_eq"), "debug_assert": mk_assert("assert")})
+        it.world = None
+        env = {"meta_tys": Term("meta_tys"), "module": Term("module"), "builder": Term("builder"), "func_writer": Term("fw"), "ptr_ty": Term("ptr_ty"), "val": Term("val"),
+               "cast_from": A, "cast_to": B, "memory": None}
+        it.run_fn(cm, env)
+        return calls_log
+    return cm, accepts, build
+
+
+def r07h(ctx, run):
+    """every cast the checker accepts (Ty::can_cast_to, evaluated from its source) is one cast_into_memory can build: its dispatch, evaluated from its
+    source for the same pair, must not end in a panic!/unreachable!/failed assert (accepted without a diagnostic, then no executable)"""
+    from absint import Panic, CannotEstablish
+    cm, accepts, build = cast_evaluator(ctx)
     samples = cast_samples()
     n_acc, n_all = 0, 0
     for an, A in samples.items():
@@ -496,24 +520,15 @@ def r07h(ctx, run):
                 continue
             n_all += 1
             try:
-                acc = W.call("can_cast_to", A, [B])
+                acc = accepts(A, B)
             except (Panic, CannotEstablish) as c:
                 run.finding("Ty::can_cast_to", "cast-accept:%s->%s" % (an, bn), cm.file, cm.ln, "cannot establish whether the cast %s -> %s is accepted: %s" % (an, bn, getattr(c, "what", c)))
                 continue
             if acc is not True:
                 continue
             n_acc += 1
-            funcs = {h: (lambda i, a, h=h: Term(h)) for h in helpers}
-            funcs["cast_into_memory"] = lambda i, a: Term("recursive cast")
-            funcs["Some"] = lambda i, a: a[0]
-            funcs["MemFlags::trusted"] = lambda i, a: Term("trusted")
-            funcs["MemFlags::new"] = lambda i, a: Term("memflags")
-            it = CI(funcs=funcs, macros={"assert": mk_assert("assert"), "assert_eq": mk_assert("assert_eq"), "debug_assert": mk_assert("assert")})
-            it.world = None
-            env = {"meta_tys": Term("meta_tys"), "module": Term("module"), "builder": Term("builder"), "func_writer": Term("fw"), "ptr_ty": Term("ptr_ty"), "val": Term("val"),
-                   "cast_from": A, "cast_to": B, "memory": None}
             try:
-                it.run_fn(cm, env)
+                build(A, B)
                 run.ok(cm.site(), "accepted cast %s -> %s is built" % (an, bn))
             except Panic as p_:
                 run.finding("cast_into_memory", "accepted-cast-unbuildable:%s->%s" % (an, bn), cm.file, cm.ln,
@@ -664,6 +679,14 @@ def r07i(ctx, run):
         raise LookupError("accepted nested comparisons: %d" % n)
 
 
+def r07j(ctx, run):
+    """a jump inside a comptime block (or lambda) that names a label of the surrounding code must be REPORTED: the nested body is compiled as a function of
+    its own where that label does not exist; if lowering lets it resolve, no diagnostic is produced and the code generator panics (shared with C05 R05.d:
+    nested bodies set the label stack aside)"""
+    import c05
+    c05.r05d(ctx, run)
+
+
 def r07f(ctx, run):
     import c12
     c12.noeval_law(ctx, run, clauses=("wrapped",))
@@ -677,6 +700,7 @@ def rules(ctx):
         Rule("R07.e", "every path that finishes a global's body passes the GlobalNotConst test (must-pass-through on MIR)", 1, r07e),
         Rule("R07.h", "every cast Ty::can_cast_to accepts is one cast_into_memory can build (both evaluated from source over 31 x 30 type pairs)", 100, r07h),
         Rule("R07.i", "== / != on aggregates: every component type the comparison recurses into has a code-generator arm (checker and generator evaluated one level deep)", 60, r07i),
+        Rule("R07.j", "nested bodies (lambda, comptime) set the enclosing params, scopes and labels aside: a jump to an outer label is reported, not compiled (shared with C05 R05.d)", 4, r07j),
         Rule("R07.g", "get_const's classification per expression kind: Unknown (= stay silent) only where an error was already reported (shared with C15 R15.b)", 60, r07g),
         Rule("R07.f", "the common type of a branch that always jumps and any other branch never wraps `noeval` in a constructor (no code-generator support, no diagnostic)", 60, r07f),
         Rule("R07.c", "is_safe_to_compile: complete error set, membership first, Missing/unknown/unlabelled unsafe; severity mapping", 11, r07c),
